@@ -81,17 +81,24 @@ impl TypeInference {
                 type_params,
                 fields,
                 ..
-            } => TypedStmtKind::StructDecl {
-                name: name.clone(),
-                type_params: type_params.clone(),
-                fields: fields
-                    .iter()
-                    .map(|f| {
-                        let ty = crate::types::InferType::from_annotation(&f.type_annotation);
-                        (f.name.clone(), ty)
-                    })
-                    .collect(),
-            },
+            } => {
+                // a struct declared inside a function body is not seen by the top-level
+                // collect_structs pass: register it where it is declared
+                if !self.type_table.has_struct(name) {
+                    self.collect_structs(std::slice::from_ref(stmt));
+                }
+                TypedStmtKind::StructDecl {
+                    name: name.clone(),
+                    type_params: type_params.clone(),
+                    fields: fields
+                        .iter()
+                        .map(|f| {
+                            let ty = crate::types::InferType::from_annotation(&f.type_annotation);
+                            (f.name.clone(), ty)
+                        })
+                        .collect(),
+                }
+            }
         };
 
         TypedStmt {
